@@ -9,6 +9,7 @@ import (
 	"io"
 	"net/http"
 	"strings"
+	"unicode/utf8"
 )
 
 func vfH_smoke() {
@@ -62,4 +63,25 @@ func vfH_smoke_stdlib() {
 	var rc io.ReadCloser = http.NoBody
 	vfAssert(rc != nil, "nobody")
 	vfReach("smoke-stdlib-end")
+}
+
+// vfH_smoke_range: range over a symbolic string decodes UTF-8 like the runtime.
+func vfH_smoke_range() {
+	s := vfString(3)
+	n, sum := 0, rune(0)
+	for i, r := range s {
+		_ = i
+		n++
+		sum += r
+	}
+	// reference: count of non-continuation... compare with the explicit decoder
+	m, sum2 := 0, rune(0)
+	for rest := s; len(rest) > 0; {
+		r, w := utf8.DecodeRuneInString(rest)
+		rest = rest[w:]
+		m++
+		sum2 += r
+	}
+	vfAssert(n == m && sum == sum2, "range-decodes-like-utf8")
+	vfReach("smoke-range-end")
 }
